@@ -18,7 +18,8 @@ CONFIG = dict(
              "non-user-level error on a realistic offer as a failure. Tie: differential run of the real transaction.Create "
              "(+ Transaction.VerifyUnsigned on its result), ChooseSpendsMinimizeUxOuts, DistributeCoinHoursProportional and "
              "DistributeSpendHours against the model on generated requests; the driver also evaluates the property's own "
-             "predicate on every transaction the implementation returns.",
+             "predicate on every transaction the implementation returns and flags a lack-of-funds failure on an offer whose coins and "
+             "hours (after the fee on the total) suffice; requests exactly at the maximum sendable hours are generated.",
         note="Trusted: Lean kernel; the hand-written model (tied every run); uxid and address are compared as numbers "
              "(big-endian value = bytes.Compare order). Hypotheses: burn factor >= 1; no-wrap of the offered coin/hour totals for "
              "choose_complete (ChooseSpends adds without overflow checks). Coin hours of offered outputs use C31's specCoinHours.",
